@@ -1,4 +1,6 @@
 import Tv.Lemmas.C17
+import Tv.Lemmas.C16Cal
+import Mathlib.Tactic.SplitIfs
 import Tv.Generated
 /-!
   C17 — date-time, duration and time-of-day arithmetic obeys its inverse laws.
@@ -553,4 +555,20 @@ example : DtOk .ns (1684161045000000000 * TUnit.ns.mult) ∧
     civilFromDays (1684161045000000000 * TUnit.ns.mult / nsPerDay) = (2023, 5, 15) := by
   refine ⟨⟨by decide, fun _ => ⟨by decide, by decide⟩⟩, by decide⟩
 
+/-! ## the model's calendar is consistent (shared with the C16 specification) -/
+
+theorem civilFromDays_eq (z : Int) : civilFromDays z = C16.Spec.civilFromDays z := rfl
+
+theorem daysFromCivil_eq (y m d : Int) (h1 : 1 ≤ m) (h2 : m ≤ 12) :
+    daysFromCivil y m d = C16.Spec.daysFromCivil y m d := by
+  simp only [daysFromCivil, C16.Spec.daysFromCivil]
+  split_ifs <;> omega
+
+/-- the model's day-count and date functions round-trip for every day count -/
+theorem calendar_roundtrip (z : Int) :
+    daysFromCivil (civilFromDays z).1 (civilFromDays z).2.1 (civilFromDays z).2.2 = z := by
+  rw [civilFromDays_eq]
+  obtain ⟨h1, h2, _, _⟩ := C16.Spec.civilFromDays_range z
+  rw [daysFromCivil_eq _ _ _ h1 h2]
+  exact C16.Spec.daysFromCivil_civilFromDays z
 end Tv.C17
